@@ -15,6 +15,7 @@ Sites == {"literal", "shl", "shl-lhs", "shr", "div", "div-lhs", "mod", "mul", "a
           "mixed-types", "mixed-types-insn", "macro-value", "seg-start-string",
           "import-super", "import-as-super", "import-super-path",   \* `super' where an import expects a name of the imported file
           "import-into-itself",    \* `.import x, x as x.y': the second name would be exported into the first one
+          "seg-use-before-define", \* code for a segment in front of its definition: the definition starts the segment afresh, the code would be missing
           "macro-fanout", "macro-fanout-mutual",    \* a macro that invokes itself twice per expansion: depth 64 bounds 2^64 expansions
           "nested-defined", "macro-blocks-3", "macro-blocks-95", "macro-ifs-40",   \* depth that exists only after expansion: blocks x macro recursion
           "loop-untaken-loop",     \* iterations spent inside an untaken branch (analysis mode) count towards the pass budget too
@@ -34,7 +35,7 @@ Cases == {[site |-> s, arg |-> a, ctx |-> c] : s \in NumericSites, a \in Args, c
 Ideal(c) ==
   CASE c.site \in {"seg-name", "bank-name", "useseg-name"} -> "diagnostic"      \* a name containing '.' (a test name may be a path)
     [] c.site \in {"nested-call"} -> "value"
-    [] c.site \in {"macro-recursion", "macro-mutual", "macro-fanout", "macro-fanout-mutual", "import-into-itself"} -> "diagnostic"
+    [] c.site \in {"macro-recursion", "macro-mutual", "macro-fanout", "macro-fanout-mutual", "import-into-itself", "seg-use-before-define"} -> "diagnostic"
     [] c.site \in {"seg-target-low", "seg-target-high", "seg-storage-high"} -> "diagnostic"
     [] c.site \in {"mixed-types", "mixed-types-insn", "macro-value", "seg-start-string"} -> "diagnostic"
     [] c.site \in {"seg-redefine", "seg-redefine-moved", "bank-redefine"} -> "diagnostic"
